@@ -17,11 +17,37 @@ structure Sim where
   cutOpen : Bool := false
   cutHello : Bool := false
   cutReq : Bool := false
+  atClear : Option (String × String × String) := none     -- (lsub|lunsub, client, topic) to run when clear() is entered
+  afterClear : Option (String × String × String) := none  -- … right after clear()
   retainedKeys : List (String × Nat) := []
 
 def sortS (l : List String) : List String := l.mergeSort (fun a b => !(b < a))
 
 def stepD (st : S) (l : Label String Nat) : S := (Proto.step true 100 st l).getD st
+
+/-- a subscribe / unsubscribe hook of the local store: new store and the event it emits (if any) -/
+def hookOp (ls : LS) : String × String × String → LS × List (PBody String Nat)
+  | ("lsub", c, t) => let r := ls.subscribe c t; (r.1, if r.2 then [.sub t] else [])
+  | (_, c, t) => let r := ls.unsubscribe c t; (r.1, if r.2 then [.unsub t] else [])
+
+/-- will the next handshake be a clean start? -/
+def willClean (st : S) : Bool :=
+  let h := helloR 100 st.r st.s.sid
+  cleanDecision true st.s h.2.1 h.2.2
+
+/-- `reconnect` with the armed clear hooks: the one at the entry of `clear()` is an ordinary emission before the step, the one
+    after `clear()` is the step's `mid` -/
+def reconnectWithHooks (m : Sim) (opens : Bool) : Sim :=
+  if willClean m.st then
+    let (ls1, ev1) := match m.atClear with
+      | some h => hookOp m.ls h
+      | none => (m.ls, [])
+    let st1 := ev1.foldl (fun st b => stepD st (.emit b)) m.st
+    let (ls2, ev2) := match m.afterClear with
+      | some h => hookOp ls1 h
+      | none => (ls1, [])
+    { m with ls := ls2, st := stepD st1 (.reconnect opens ev2), atClear := none, afterClear := none }
+  else { m with st := stepD m.st (.reconnect opens []) }
 
 def dec : Option Nat → Option Nat
   | some (n + 1) => some n
@@ -35,8 +61,8 @@ def settle : Nat → Sim → Sim
     if !st.c.isOpen then
       if m.cutReq then settle fuel { m with st := stepD st .helloFail, cutReq := false }
       else if m.cutHello then settle fuel { m with st := stepD st .helloLost, cutHello := false }
-      else if m.cutOpen then settle fuel { m with st := stepD st (.reconnect false), cutOpen := false }
-      else settle fuel { m with st := stepD st (.reconnect true) }
+      else if m.cutOpen then settle fuel { (reconnectWithHooks m false) with cutOpen := false }
+      else settle fuel (reconnectWithHooks m true)
     else match st.c.up with
       | _ :: _ =>
         if m.cutSend == some 0 then settle fuel { m with st := stepD st .brk, cutSend := none }
@@ -86,6 +112,8 @@ def step (m : Sim) (line : String) : Sim × String :=
   | ["cut-open"] => ({ m with cutOpen := true }, "armed")
   | ["cut-hello-resp"] => ({ m with cutHello := true }, "armed")
   | ["cut-hello-req"] => ({ m with cutReq := true }, "armed")
+  | ["at-clear", k, c, t] => if k == "lsub" || k == "lunsub" then ({ m with atClear := some (k, c, t) }, "armed") else (m, "bad-op")
+  | ["after-clear", k, c, t] => if k == "lsub" || k == "lunsub" then ({ m with afterClear := some (k, c, t) }, "armed") else (m, "bad-op")
   | ["break"] => fin { m with st := stepD m.st .brk }
   | ["peer-restart"] => fin { m with st := stepD m.st .peerRestart }
   | ["sender-restart"] => fin { m with st := stepD m.st (.senderRestart m.st.s.topics m.st.s.retained) }
